@@ -283,6 +283,9 @@ def run(ctx):
         res.add(Finding('C06', 'C06.f', 'R-TAINT', 'site-packages/jsonpickle/pickler.py', 'Pickler._get_flattener', n.lineno, norm(n),
                         'a set argument is serialized by plain iteration: the order of string elements depends on PYTHONHASHSEED, so '
                         'structurally equal calls get different keys in recorder and replayer processes'))
+    # ---- C06.g the alias a key is built from is the resolver-formatted one for every public decorator (shared with C02.k: options forwarded)
+    from . import common as _cm6b
+    _cm6b.import_clauses(ctx, res, 'C02', ['C02.k'], 'C06', 'C06.g', 'R-SIBLING', 'public decorators hand every option (alias resolver, capture list) to the shared factory', floor=2)
     return res
 
 
